@@ -62,6 +62,9 @@ def match_known(prop, o, known):
     return None
 
 
+_JOB_SECONDS = {}
+
+
 def run_property(prop, tier="quick", seed=0, workers=None, only=None):
     t0 = time.time()
     mod = importlib.import_module(f"rverif.props.{prop.lower()}")
@@ -81,6 +84,8 @@ def run_property(prop, tier="quick", seed=0, workers=None, only=None):
                 results.append(f.result())
     obligations = []
     errors = []
+    global _JOB_SECONDS
+    _JOB_SECONDS = {r["job"].get("name", str(r["job"])): round(r.get("seconds", 0.0), 2) for r in results}
     for r in results:
         for o in r["obligations"]:
             o["job"] = r["job"].get("name", str(r["job"]))
@@ -164,6 +169,7 @@ def finish(prop, mod, tier, seed, obligations, errors, jobs, t0):
         "solver_seconds": round(solver_s, 3),
         "solver_seconds_max": round(max([o.get("seconds", 0) or 0 for o in obligations] + [0]), 3),
         "jobs": len(jobs),
+        "slowest_jobs_s": dict(sorted(_JOB_SECONDS.items(), key=lambda kv: -kv[1])[:8]),
         "checker_cmd": f"./check {prop} --tier {tier}",
         "trusted_base": meta.get("trusted_base", []),
         "samples": samples,
